@@ -42,6 +42,8 @@ structure St where
   pend : List (Nat × Pend) := []
   skip : Option String := none
   tearNext : Nat := 0
+  /-- per thread: payloads the model's `bVals` step read and whose `clone` lines are still to come -/
+  clones : List (Nat × List Nat) := []
 
 def kv (ws : List String) (key : String) : Option String :=
   (ws.find? (fun w => w.startsWith (key ++ "="))).map (fun w => (w.drop (key.length + 1)).toString)
@@ -131,12 +133,12 @@ def showAct (a : Act) : String :=
   let o := if a.kind == .cas then s!"{showOrd a.ord}/{showOrd a.ordF}" else showOrd a.ord
   s!"{showKind a.kind} {showObj a.obj} {o} {a.old}->{a.new} ok={a.ok}"
 
-/-- is the next step of thread `t` one of the silent (non-atomic) ones? -/
+/-- is the next step of thread `t` one of the silent (non-atomic) ones? The payload copy-outs `rVal` / `bVals`
+are NOT silent any more: the harness logs every `V::clone` (`A <tid> clone v<id>`), so they are matched in trace
+order by `doClone` — a cursor store that precedes the copy-out it covers is a MISMATCH. -/
 def isSilent (s : State) (t : Nat) : Bool :=
   match s.pc t with
   | .snd (.wVal ..) => true
-  | .rcv _ (.rVal ..) => true
-  | .rcv _ (.bVals ..) => true
   | .rcv _ (.mMod _ (.wMut1 ..)) => true
   | .rcv _ (.mMod _ (.wMut2 ..)) => true
   | _ => false
@@ -149,11 +151,50 @@ def showPC (p : PC) : String := toString (repr p)
 
 def natTok (x : String) : Nat := x.toNat?.getD 0
 
+def clonesOf (st : St) (t : Nat) : List Nat := ((st.clones.find? (fun p => p.1 == t)).map (·.2)).getD []
+def setClones (st : St) (t : Nat) (l : List Nat) : St :=
+  let rest := st.clones.filter (fun q => q.1 != t)
+  if l.isEmpty then { st with clones := rest } else { st with clones := (t, l) :: rest }
+
+/-- one logged payload clone `A t clone v<id>`: it must be the model's `rVal` step (single receive), the
+`bVals` step (first payload of a batch; the model reads the k payloads at that point) or one of the remaining
+payloads of that batch — and the payload read must be the one the model's slot holds. -/
+def doClone (st : St) (t : Nat) (obj : String) : Except String (St × List String) :=
+  let id := natTok (obj.drop 1).toString
+  match clonesOf st t with
+  | e :: rest =>
+    if e == id then .ok (setClones st t rest, ["a:clone"])
+    else .error s!"model=[clone v{e}] impl=[clone {obj}] (payload of a batch copy-out differs) pc={showPC (st.s.pc t)}"
+  | [] =>
+    match st.s.pc t with
+    | .rcv _ (.rVal _ c) =>
+      let e := st.s.val (c % st.s.cap)
+      if e != id then .error s!"model=[clone v{e}] impl=[clone {obj}] pc={showPC (st.s.pc t)}"
+      else match act st.s t with
+        | some s1 => .ok ({ st with s := s1 }, ["a:clone"])
+        | none => .error "model=clone-step-not-enabled"
+    | .rcv _ (.bVals _ c k) =>
+      let vs := (List.range k).map (fun i => st.s.val ((c + i) % st.s.cap))
+      match vs, act st.s t with
+      | e :: rest, some s1 =>
+        if e != id then .error s!"model=[clone v{e}] impl=[clone {obj}] pc={showPC (st.s.pc t)}"
+        else .ok (setClones { st with s := s1 } t rest, ["a:clone"])
+      | _, _ => .error "model=clone-step-not-enabled"
+    | pc => .error s!"model=no-payload-clone-expected-here impl=[clone {obj}] pc={showPC pc}"
+
 /-- compare one `A` line with the model's next action of thread `t` and take the step -/
 def doAction (st : St) (t : Nat) (kind obj ord old new ok : String) : Except String (St × List String) :=
+  if kind == "clone" then doClone st t obj else
+  if !(clonesOf st t).isEmpty then
+    .error s!"model=[clone v{(clonesOf st t).headD 0}] (batch copy-out not finished) impl=[{kind} {obj}] pc={showPC (st.s.pc t)}"
+  else
   let s0 := runSilent st.s t 4
   match actInfo s0 t with
-  | none => .error s!"model=no-visible-action pc={showPC (s0.pc t)}"
+  | none =>
+    match s0.pc t with
+    | .rcv _ (.rVal ..) | .rcv _ (.bVals ..) =>
+      .error s!"model=[clone of the slot payload] impl=[{kind} {obj}] (action before the payload copy-out) pc={showPC (s0.pc t)}"
+    | _ => .error s!"model=no-visible-action pc={showPC (s0.pc t)}"
   | some a =>
     -- object
     let objOk : Bool :=
